@@ -9,3 +9,5 @@ func verifEnc(hc *halfConn, data []byte, explicitIVLen int)                     
 func verifDec(hc *halfConn, seq [8]byte, typ byte, ok *bool, alertValue *alert) {}
 func verifCCS(hc *halfConn)                                                     {}
 func verifSetErr(hc *halfConn, err error)                                       {}
+func verifFaultSKE(c *Conn, skx *serverKeyExchangeMsg) *serverKeyExchangeMsg    { return skx }
+func verifFaultBytes(c *Conn, site string, b []byte) []byte                     { return b }
